@@ -245,7 +245,7 @@ impl Check for C16 {
     fn required_classes(&self, _tier: Tier) -> Vec<&'static str> {
         vec![
             "to:json", "to:yaml", "to:msgpack", "to:toml", "error_met_in_per_input_flush", "error_met_in_buffered_write", "input:stdin", "input:many_files", "input:one_file", "close:at_0", "close:within_first_capacity",
-            "close:after_several_capacities", "pipe:4KiB", "pipe:64KiB", "devfull:above_buffer", "devfull:below_buffer", "devfull:buffer_fills_inside_document", "stdout:socket_peer_gone", "stdout:full_nonblocking_pipe",
+            "close:after_several_capacities", "pipe:4KiB", "pipe:64KiB", "devfull:above_buffer", "devfull:below_buffer", "devfull:buffer_fills_inside_document", "stdout:socket_peer_gone", "stdout:full_nonblocking_pipe", "sigpipe_blocked_in_inherited_mask",
         ]
     }
     fn run_unit(&self, unit: &Unit, shard: u32, seed: u64, _tier: Tier, rec: &mut Recorder) {
@@ -273,6 +273,32 @@ impl Check for C16 {
                         rec.class("devfull:buffer_fills_inside_document");
                     }
                 }
+                // SIGPIPE blocked in the inherited signal mask: raising it cannot end the
+                // process; what remains is a quiet failure - never an abort, never success
+                // (outputs larger than pipe capacity + buffer, so that the write must
+                // meet the closed pipe whenever the consumer closes it)
+                for to in FORMATS {
+                    for big in [true] {
+                        let debug = shard == 0;
+                        let sc = Scratch::new("c16b");
+                        let name = if to == Fmt::Toml { "in0.toml" } else { "in0.json" };
+                        sc.file(name, &if to == Fmt::Toml { toml_input(if big { 30_000 } else { 10 }) } else { input_text(2, if big { 30_000 } else { 10 }, 0) });
+                        let args: Vec<OsString> = vec![format!("-t{}", to.name()).into(), name.into()];
+                        crate::cli::BLOCK_SIGPIPE.with(|b| b.set(true));
+                        let res = run_xt(if debug { Bin::Debug } else { Bin::Release }, &args, &sc.dir, StdinSpec::Null, StdoutSpec::ClosingPipe { after: 0, pipe_size: Some(4096) }, vec![]);
+                        crate::cli::BLOCK_SIGPIPE.with(|b| b.set(false));
+                        let ok = res.signal == Some(libc::SIGPIPE) || (res.code == Some(1) && res.stderr.is_empty());
+                        if !ok {
+                            rec.fail(
+                                format!("consumer of stdout gone and SIGPIPE blocked in the inherited mask ({} output, -t {}): expected termination by SIGPIPE or a quiet exit 1, got {}", if big { "large" } else { "small" }, to.name(), res.brief()),
+                                json!({"unit": "blocked_sigpipe", "to": to.name(), "big": big, "debug": debug}),
+                            );
+                            return;
+                        }
+                        rec.count(Some(hash_of(&format!("blocked{}{}{}", to.name(), big, debug))));
+                        rec.class("sigpipe_blocked_in_inherited_mask");
+                    }
+                }
                 for to in FORMATS {
                     for big in [false, true] {
                         for many in [false, true] {
@@ -296,7 +322,7 @@ impl Check for C16 {
     }
     fn replay(&self, case: &J) -> Result<(), String> {
         let mut rec = Recorder::default();
-        if case["unit"].as_str() == Some("devfull_alignment") {
+        if matches!(case["unit"].as_str(), Some("devfull_alignment") | Some("blocked_sigpipe")) {
             return Err("re-run ./check C16 quick (fixed enumeration)".into());
         }
         if case["unit"].as_str() == Some("other_stdout") {
